@@ -32,9 +32,9 @@ for p in props:
 man = {
     "version": 1,
     "setup_cmd": "true",
-    "hooks": {"guard": "QB_VERIF_HOOKS", "enable": "no hooks are needed: harnesses #include the real /repo/lib/*.c units and are compiled with goto-cc -DHAVE_CONFIG_H -I/repo/include -I/repo/lib on every run",
+    "hooks": {"guard": "QB_VERIF_HOOKS", "enable": "harness/c01_yield.c defines QB_VERIF_HOOKS before including /repo/lib/ringbuffer.c (QB_VERIF_YIELD scheduling points between shared accesses); every other harness includes the real units with the guard off; all are compiled with goto-cc -DHAVE_CONFIG_H -I/repo/include -I/repo/lib from the working tree on every run",
               "baseline_off_cmd": "make -C /repo -j8 && make -C /repo/tests check",
-              "source_commits": [], "add_only": True},
+              "source_commits": ["c45988a"], "add_only": True},
     "engines": [{"name": "cbmc", "path": "/verif/lib/engine.py", "serves_properties": [c["property_id"] for c in checks],
                  "kind_free_text": "CBMC 6.11 bounded model checking of the real libqb C translation units (goto-cc from /repo working tree on every run), SAT back end, unwinding assertions, reachability witnesses, native ASan replay of counterexamples"}],
     "checks": checks,
